@@ -5,7 +5,7 @@ from fractions import Fraction
 import numpy as np
 
 import builders_confocal as bc
-from common import enc_list, enc_opt, errname
+from common import enc_float, enc_list, enc_opt, errname
 
 PROP = "C06"
 THEOREMS = [
@@ -36,6 +36,7 @@ THEOREMS = [
     "Verif.C06.scan_pixel_time_of_fast_step",
     "Verif.C06.scan_pixel_counts",
     "Verif.C06.down_with_entry",
+    "Verif.C06.cropF_refines_crop",
 ]
 RULE = (
     "kymographs and scans built from generated info waves (P<=5 pixels, <=6 lines/frames, k<=3 samples per pixel, "
@@ -141,6 +142,8 @@ def kop_token(op):
         return f"slice:{op[1]}:{op[2]}"
     if k == "crop":
         return f"crop:{enc_frac(op[1])}:{enc_frac(op[2])}"
+    if k == "cropf":
+        return f"cropf:{enc_float(float(op[1]))}:{enc_float(float(op[2]))}"
     if k == "flip":
         return "flip"
     if k == "down":
@@ -202,6 +205,8 @@ def apply_kop(k, op):
         return k[op[1] : op[2]]
     if n == "crop":
         return k.crop_by_distance(float(Fraction(op[1])), float(Fraction(op[2])))
+    if n == "cropf":
+        return k.crop_by_distance(float(op[1]), float(op[2]))
     if n == "flip":
         return k.flip()
     if n == "down":
@@ -395,11 +400,19 @@ def oracle(case, ia):
                     status = "empty"
                     break
                 ref, tmn, tmx = ref[:, keep], tmn[:, keep], tmx[:, keep]
-            elif n == "crop":
+            elif n in ("crop", "cropf"):
                 lo, hi = Fraction(op[1]), Fraction(op[2])
                 if lo < 0 or hi < 0:
                     status = "ValueError"
                     break
+                if n == "cropf":
+                    # bounds and pixel size are doubles that need not be binary fractions of each other: where a
+                    # quotient is within 1e-9 of an integer, "floor(lo/px)" depends on how one reads the numbers (the
+                    # exact quotient of the doubles, the decimal literals, or the rounded quotient): not judged here,
+                    # left to the model, which executes the division as the code does
+                    for q in (lo / px, hi / px):
+                        if abs(q - round(q)) < Fraction(1, 10**9):
+                            return None
                 r0, r1 = math.floor(lo / px), math.ceil(hi / px)
                 if ref[r0:r1, :].shape[0] == 0:
                     status = "IndexError"
@@ -635,6 +648,40 @@ def kymo_alphabet(case, rng=None, full=True):
     return ops_
 
 
+def float_crop_cases(quick, rng):
+    """kymographs with pixel sizes such as 0.1, 0.08, 0.03 um; bounds on (products k*px, decimal literals k/10),
+    beside (one ulp) and between pixel edges; alone, after position binning (the pixel size becomes a rounded
+    product), after calibrate_to_kbp (a rounded quotient) and after another crop (offset)"""
+    r = rng.fork("c06-floatcrop")
+    for pixel_nm, P in ((100.0, 12), (80.0, 7), (30.0, 11)) if not quick else ((100.0, 12), (30.0, 7)):
+        obj = kymo_case(P, 2, 1, 0, 1, pixel_nm=pixel_nm)
+        px = pixel_nm / 1000
+        edges = set()
+        for k in range(0, P + 2):
+            for v in (k * px, round(k * px, 10), k / 10 if pixel_nm == 100.0 else k * px):
+                edges.update([v, float(np.nextafter(v, 0.0)) if v > 0 else 0.0, float(np.nextafter(v, 1e9))])
+            edges.add((k + 0.5) * px)
+        edges = sorted(e for e in edges if e >= 0)
+        pairs = [(lo, hi) for lo in edges for hi in edges if lo < hi + px]
+        if quick:
+            pairs = r.sample(pairs, 350)
+        for lo, hi in pairs:
+            yield dict(obj, stream="small-scope", program=[["cropf", lo, hi]])
+        firsts = [["down", 1, 2], ["down", 1, 3], ["kbp", str(Fraction(17, 10))], ["kbp", str(Fraction(P) * Fraction(3, 10))], ["cropf", px, (P - 1) * px], ["flip"]]
+        for first in firsts:
+            pf = first[2] if first[0] == "down" else 1
+            px2 = {"down": px * pf, "kbp": float(Fraction(first[1])) / P if first[0] == "kbp" else None}.get(first[0], px)
+            n2 = P // pf - (2 if first[0] == "cropf" else 0)
+            e2 = set()
+            for k in range(0, n2 + 2):
+                v = k * px2
+                e2.update([v, float(np.nextafter(v, 0.0)) if v > 0 else 0.0, float(np.nextafter(v, 1e9)), (k + 0.5) * px2])
+            e2 = sorted(e2)
+            p2 = [(lo, hi) for lo in e2 for hi in e2 if lo < hi]
+            for lo, hi in r.sample(p2, min(len(p2), 40 if quick else 400)):
+                yield dict(obj, stream="small-scope", program=[first, ["cropf", lo, hi]])
+
+
 def scan_alphabet(case, rng=None):
     frames = scan_reference(case)
     n = len(frames)
@@ -694,6 +741,8 @@ def cases(tier, rng):
             a2 = r2.sample(a2, min(len(a2), 40))
         for o1, o2 in itertools.product(a1, a2):
             yield dict(obj, stream="small-scope", program=[o1, o2])
+    # ---- pixel sizes that are not binary fractions: the crop is executed in floating point (cropf)
+    yield from float_crop_cases(quick, rng)
     sobjs = [scan_case(3, 2, 3, 1, 1, 1, 2, 0, 1), scan_case(2, 3, 2, 2, 0, 1, 0, 1, 0), scan_case(3, 3, 1, 1, 0, 1, 1, 0, 1)]
     if not quick:
         sobjs += [scan_case(2, 2, 4, 1, 2, 0, 3, 1, 2), scan_case(4, 2, 1, 2, 1, 2, 0, 1, 0, scan_count=1)]
